@@ -108,10 +108,10 @@ def scenarios(sc, tier, seed):
         if not plan:
             raise vlib.Inconclusive('no counterexample from %s' % cfg)
         scs.append(dict(STD, id='tlc-%s' % cfg[12:-4], mode='controlled', seed=1, strategy='plan', plan=with_start_steps(plan), close=False, kind='window'))
-    for i, plan in enumerate(sim_plans(sc, 200 if tier == 'quick' else 4000, seed)):
+    for i, plan in enumerate(sim_plans(sc, 200 if tier == 'quick' else 12000, seed)):
         scs.append(dict(STD, id='sim-%d-%d' % (seed, i), mode='controlled', seed=seed * 1000 + i, strategy='plan', plan=with_start_steps(plan), close='closer' in plan, kind='sim'))
     rnd = random.Random(seed * 17 + 3)
-    for i in range(600 if tier == 'quick' else 20000):
+    for i in range(600 if tier == 'quick' else 60000):
         std = rnd.random() < 0.5
         s = dict(STD) if std else {'trigs': rnd.randint(1, 3), 'calls': rnd.randint(1, 4), 'lts': rnd.randint(0, 4), 'ets': rnd.randint(0, 2), 'sends': rnd.randint(1, 3), 'size0': rnd.choice([1, 2, 2, 4])}
         scs.append(dict(s, id='rnd-%d-%d' % (seed, i), mode='controlled', seed=seed * 100000 + i, strategy=rnd.choice(['random', 'random', 'pct']), plan=[], close=rnd.random() < 0.5, kind='rnd'))
@@ -127,7 +127,7 @@ def free_scenarios(tier, seed):
             ets = rnd.choice([1, 2, 3])
             scs.append({'id': 'big-%d-%d-%s' % (seed, tot, 'ef' if etfirst else 'lf'), 'mode': 'bigbatch', 'seed': seed, 'lts': tot - ets, 'ets': ets, 'etfirst': etfirst,
                         'trigs': 0, 'calls': 0, 'sends': 0, 'close': False, 'size0': 128, 'strategy': 'free', 'plan': [], 'kind': 'free'})
-    for k in range(12 if tier == 'quick' else 120):
+    for k in range(12 if tier == 'quick' else 300):
         scs.append({'id': 'storm-%d-%d' % (seed, k), 'mode': 'storm', 'seed': seed, 'lts': 0, 'ets': 0, 'etfirst': False, 'trigs': rnd.choice([2, 4, 8]),
                     'calls': rnd.choice([2000, 20000, 50000]), 'sends': 0, 'close': rnd.random() < 0.5, 'size0': 128, 'strategy': 'free', 'plan': [], 'kind': 'free'})
     return scs
@@ -152,7 +152,7 @@ def run(sc, binary, pid, tier, seed, replay=None):
     if crashed:
         raise vlib.Inconclusive('PollLoop harness process died: ' + crashed[0][1][-600:])
     if not replay:
-        base = [s for s in ctrl if s['kind'] == 'rnd'][:40 if tier == 'quick' else 400]
+        base = [s for s in ctrl if s['kind'] == 'rnd'][:40 if tier == 'quick' else 1500]
         st_scs = conn.stall_variants(base, res, per_scenario=12, rnd=random.Random(seed), skip_actors=())
         r2, crashed = conn.run_scenarios(sc, binary, st_scs, 'pls', procs=12, test='TestVerifPollLoop')
         if crashed:
